@@ -1,26 +1,87 @@
+"""C19: contracts of the four built-in degree distributions (real power, exp and factorial uninterpreted: A-REAL)."""
 import ast, z3
 from vf.spec import *
 from vf.sym import to_real
 RPOW = z3.Function("rpow", z3.RealSort(), z3.RealSort(), z3.RealSort())
+EXP = z3.Function("exp", z3.RealSort(), z3.RealSort())
+FACT = z3.Function("fact", z3.IntSort(), z3.IntSort())
 def build(reg):
-    x, y = z3.Reals("x_ y_")
-    reg.axioms.append(("rpow.positive", z3.ForAll([x, y], z3.Implies(x > 0, RPOW(x, y) > 0), patterns=[RPOW(x, y)]), "a positive real raised to a real power is positive"))
-    reg.native_specfuns["rpow"] = dict(smt=lambda ex, a, b: Val(REAL, RPOW(to_real(a), to_real(b))), rt=lambda a, b: float(a) ** float(b))
-    reg.binop_hooks["pow"] = lambda ex, a, b, pc, n: (ex.assumptions.add("x ** y and pow(x, y) on reals are the uninterpreted real power rpow (A-REAL)") or Val(REAL, RPOW(to_real(a), to_real(b))))
-    def hook(ex, n, st, pc):
-        if isinstance(n, ast.Call) and isinstance(n.func, ast.Name):
-            if n.func.id == "abs" and len(n.args) == 1:
-                a = ex.expr(n.args[0], st, pc); return Val(a.t, z3.If(a.z < 0, -a.z, a.z))
-            if n.func.id == "pow" and len(n.args) == 2:
-                a, b = ex.expr(n.args[0], st, pc), ex.expr(n.args[1], st, pc); return Val(REAL, RPOW(to_real(a), to_real(b)))
+    x, y = z3.Reals("x_ y_"); n = z3.Int("n_")
+    reg.axioms += [("rpow.positive", z3.ForAll([x, y], z3.Implies(x > 0, RPOW(x, y) > 0), patterns=[RPOW(x, y)]), "a positive real raised to a real power is positive"),
+                   ("exp.positive", z3.ForAll([x], EXP(x) > 0, patterns=[EXP(x)]), "exp is positive"),
+                   ("fact.positive", z3.ForAll([n], z3.Implies(n >= 0, FACT(n) >= 1), patterns=[FACT(n)]), "k! >= 1 for k >= 0")]
+    NS = reg.native_specfuns
+    NS["rpow"] = dict(smt=lambda ex, a, b: Val(REAL, RPOW(to_real(a), to_real(b))), rt=lambda a, b: float(a) ** float(b))
+    NS["exp"] = dict(smt=lambda ex, a: Val(REAL, EXP(to_real(a))), rt=None)
+    NS["fact"] = dict(smt=lambda ex, a: Val(INT, FACT(a.z)), rt=None)
+    reg.binop_hooks["pow"] = lambda ex, a, b, pc, nn: (ex.assumptions.add("x ** y and pow(x, y) on reals are the uninterpreted real power rpow (A-REAL)") or Val(REAL, RPOW(to_real(a), to_real(b))))
+    def hook(ex, nd, st, pc):
+        if isinstance(nd, ast.Call):
+            src = ast.unparse(nd.func)
+            if src == "pow" and len(nd.args) == 2:
+                a, b = ex.expr(nd.args[0], st, pc), ex.expr(nd.args[1], st, pc); ex.assumptions.add("pow(x, y) is the uninterpreted real power rpow (A-REAL)"); return Val(REAL, RPOW(to_real(a), to_real(b)))
+            if src in ("np.exp", "math.exp") and len(nd.args) == 1:
+                ex.assumptions.add("np.exp is the (uninterpreted, positive) real exponential"); return Val(REAL, EXP(to_real(ex.expr(nd.args[0], st, pc))))
+            if src == "math.factorial" and len(nd.args) == 1:
+                a = ex.expr(nd.args[0], st, pc); ex.branch_exc(pc, a.z < 0, "ValueError", nd)
+                ex.assumptions.add("math.factorial(k) is k! (uninterpreted, >= 1) for k >= 0, ValueError otherwise"); return Val(INT, FACT(a.z))
         return None
     reg.call_hooks.append(hook)
+    TOL = "0.000001"
     reg.specfun("psum", [("s", REAL), ("n", INT)], REAL, base="0.0", rec="psum(s, n - 1) + 1.0 / rpow(n, s)")
+    reg.specfun("zpow", [("z", REAL), ("n", INT)], REAL, base="1.0", rec="zpow(z, n - 1) * z")
+    reg.specfun("plsum", [("s", REAL), ("z", REAL), ("n", INT)], REAL, base="0.0", rec="plsum(s, z, n - 1) + zpow(z, n) / rpow(n, s)")
     m = reg.module("gcmpy/distributions/power_law.py")
     m.fn("power_law.zeta", params={"s": REAL}, ret=REAL,
-         ensures={"partial_sum": "k >= 1 and result == psum(s, k)", "stops_at_first_small_term": "1.0 / rpow(k, s) < 0.000001 and forall(j, 1, k, 1.0 / rpow(j, s) >= 0.000001)"},
-         loops={0: dict(inv={"k": "k >= 1", "sum": "l == psum(s, k - 1)", "tol": "tol == 0.000001",
-                             "not_yet": "forall(j, 1, k, 1.0 / rpow(j, s) >= 0.000001)"})})
-    m.fn("power_law.p", params={"k": INT, "alpha": REAL, "C": REAL}, ghost=["alpha", "C"], ret=REAL,
-         requires={"C": "C != 0"}, ensures={"formula": "result == rpow(k, -alpha) / C"})
-    return ["power_law.zeta", "power_law.p"]
+         ensures={"partial_sum": "k >= 1 and result == psum(s, k)", "stops_at_first_small_term": f"1.0 / rpow(k, s) < {TOL} and forall(j, 1, k, 1.0 / rpow(j, s) >= {TOL})"},
+         loops={0: dict(inv={"k": "k >= 1", "sum": "l == psum(s, k - 1)", "tol": f"tol == {TOL}", "not_yet": f"forall(j, 1, k, 1.0 / rpow(j, s) >= {TOL})"})})
+    m.fn("power_law.p", params={"k": INT, "alpha": REAL, "C": REAL}, ghost=["alpha", "C"], ret=REAL, requires={"C": "C != 0"}, ensures={"formula": "result == rpow(k, -alpha) / C"})
+    ms = reg.module("gcmpy/distributions/scale_free_cut_off.py")
+    ms.fn("scale_free_cut_off.polylog", params={"s": REAL, "z": REAL}, ret=REAL,
+          ensures={"partial_sum": "k >= 1 and result == plsum(s, z, k)",
+                   "stops_at_first_small_term": f"abs(zpow(z, k) / rpow(k, s)) < {TOL} and forall(j, 1, k, abs(zpow(z, j) / rpow(j, s)) >= {TOL})"},
+          loops={0: dict(inv={"k": "k >= 1", "sum": "l == plsum(s, z, k - 1)", "zk": "zk == zpow(z, k)", "tol": f"tol == {TOL}",
+                              "not_yet": f"forall(j, 1, k, abs(zpow(z, j) / rpow(j, s)) >= {TOL})"})})
+    ms.fn("scale_free_cut_off.p", params={"k": INT, "alpha": REAL, "kappa": REAL, "C": REAL}, ghost=["alpha", "kappa", "C"], ret=REAL,
+          requires={"C": "C != 0", "kappa": "kappa != 0"}, ensures={"formula": "result == rpow(k + 0.0, -alpha) * exp(-(k + 0.0) / kappa) / C"})
+    mx = reg.module("gcmpy/distributions/exponential.py")
+    mx.fn("exponential.p", params={"k": INT, "a": REAL}, ghost=["a"], ret=REAL, ensures={"formula": "result == (1 - exp(-a)) * exp(-a * k)"})
+    mp = reg.module("gcmpy/distributions/poisson.py")
+    mp.fn("poisson.p", params={"k": INT, "kmean": REAL}, ghost=["kmean"], ret=REAL, requires={"support": "k >= 0"},
+          ensures={"formula": "result == exp(-kmean) * rpow(kmean, k) / fact(k)"})
+    # ---- structural obligations: how each factory binds the captured normaliser and what it returns
+    def factory_shape(relpath, outer, binds, returns="p"):
+        def chk(reg_):
+            d = reg_.find_def(relpath, outer); body = [s for s in d.body if not (isinstance(s, ast.Expr) and isinstance(s.value, ast.Constant))]
+            got = {}
+            for s in body:
+                if isinstance(s, ast.FunctionDef): continue
+                if isinstance(s, ast.Assign) and len(s.targets) == 1 and isinstance(s.targets[0], ast.Name): got.setdefault(s.targets[0].id, []).append(ast.unparse(s.value).replace(" ", "")); continue
+                if isinstance(s, ast.Return): got["return"] = [ast.unparse(s.value)]; continue
+                return False, f"unexpected statement in {outer}: {ast.unparse(s)[:60]}"
+            want = {k: [v.replace(" ", "")] for k, v in binds.items()}; want["return"] = [returns]
+            # captured names must not be re-bound inside the returned closure
+            inner = next(s for s in d.body if isinstance(s, ast.FunctionDef) and s.name == returns)
+            rebound = [n.id for n in ast.walk(inner) if isinstance(n, ast.Name) and isinstance(n.ctx, ast.Store) and n.id in binds]
+            return (got == want and not rebound), f"{outer}: bindings {got}, expected {want}"
+        return chk
+    reg.static_checks += [("power_law:static.normaliser_is_zeta_of_alpha_and_p_is_returned", factory_shape("gcmpy/distributions/power_law.py", "power_law", {"C": "zeta(alpha)"})),
+                          ("scale_free_cut_off:static.normaliser_is_polylog_and_p_is_returned", factory_shape("gcmpy/distributions/scale_free_cut_off.py", "scale_free_cut_off", {"C": "polylog(alpha, np.exp(-1.0 / kappa))"})),
+                          ("exponential:static.p_is_returned", factory_shape("gcmpy/distributions/exponential.py", "exponential", {})),
+                          ("poisson:static.p_is_returned", factory_shape("gcmpy/distributions/poisson.py", "poisson", {}))]
+    def links(reg_):
+        import importlib
+        missing = []
+        for relpath in ("gcmpy/distributions/poisson.py", "gcmpy/distributions/exponential.py", "gcmpy/distributions/scale_free_cut_off.py"):
+            tree = reg_.tree(relpath)
+            for nd in ast.walk(tree):
+                if isinstance(nd, ast.Attribute) and isinstance(nd.value, (ast.Name, ast.Attribute)):
+                    dotted = ast.unparse(nd); root = dotted.split(".")[0]
+                    if root in ("np", "math"):
+                        obj = importlib.import_module("numpy" if root == "np" else "math")
+                        try:
+                            for part in dotted.split(".")[1:]: obj = getattr(obj, part)
+                        except AttributeError: missing.append(dotted)
+        return (not missing), f"unresolvable library names: {missing}"
+    reg.static_checks.append(("distributions:link.library_names_resolve", links))
+    return ["power_law.zeta", "power_law.p", "scale_free_cut_off.polylog", "scale_free_cut_off.p", "exponential.p", "poisson.p"]
